@@ -544,3 +544,108 @@ pub fn history(seed: u64, idx: u64) -> Case {
         sig_tail: String::new(),
     }
 }
+
+// ------------------------------------------------------------------ drop racing the end of an abandoned closure
+
+struct RaceVal {
+    dropped_on: Arc<Mutex<Option<ThreadId>>>,
+}
+impl Drop for RaceVal {
+    fn drop(&mut self) {
+        *self.dropped_on.lock().unwrap() = Some(std::thread::current().id());
+    }
+}
+
+/// Many lean trials of one schedule: an interaction is abandoned while its closure runs, the closure ends after
+/// a random few microseconds, and the wrapper is dropped at about the same time on an async worker thread.
+/// Whatever the order, the value must not be destroyed on the thread that dropped the wrapper.
+pub fn drop_race(seed: u64, idx: u64) -> Case {
+    let mut rng = Rng::derive(seed, 0xC14D, idx);
+    let trials = 400usize;
+    let rt = tokio::runtime::Builder::new_multi_thread().worker_threads(2).max_blocking_threads(4).enable_time().build().expect("runtime");
+    let mut viol: Vec<Violation> = Vec::new();
+    let mut counters: BTreeMap<String, u64> = BTreeMap::new();
+    let delays: Vec<(u64, u64)> = (0..trials).map(|_| (rng.below(40_000), rng.below(40_000))).collect();
+    let d2 = delays.clone();
+    let out = rt.block_on(async move {
+        tokio::spawn(async move {
+            let mut bad: Vec<String> = Vec::new();
+            let mut never = 0u64;
+            let mut closure_first = 0u64;
+            for (k, (closure_ns, drop_ns)) in d2.into_iter().enumerate() {
+                let dropped_on = Arc::new(Mutex::new(None));
+                let d = dropped_on.clone();
+                let w = match SyncWrapper::new(deadpool::Runtime::Tokio1, move || Ok::<_, ()>(RaceVal { dropped_on: d })).await {
+                    Ok(w) => Arc::new(w),
+                    Err(_) => continue,
+                };
+                let started = Arc::new(AtomicBool::new(false));
+                let ended = Arc::new(AtomicBool::new(false));
+                let (w2, st, en) = (w.clone(), started.clone(), ended.clone());
+                let h = tokio::spawn(async move {
+                    let _ = w2
+                        .interact(move |_| {
+                            st.store(true, Ordering::SeqCst);
+                            let t0 = std::time::Instant::now();
+                            while (t0.elapsed().as_nanos() as u64) < closure_ns {
+                                std::hint::spin_loop();
+                            }
+                            en.store(true, Ordering::SeqCst);
+                        })
+                        .await;
+                });
+                let t0 = std::time::Instant::now();
+                while !started.load(Ordering::SeqCst) && t0.elapsed() < Duration::from_secs(5) {
+                    tokio::task::yield_now().await;
+                }
+                h.abort();
+                let _ = h.await;
+                let t1 = std::time::Instant::now();
+                while (t1.elapsed().as_nanos() as u64) < drop_ns {
+                    std::hint::spin_loop();
+                }
+                if ended.load(Ordering::SeqCst) {
+                    closure_first += 1;
+                }
+                let me = std::thread::current().id();
+                drop(w);
+                // bounded wait for the destructor (it runs on a blocking thread)
+                let t2 = std::time::Instant::now();
+                let mut on = *dropped_on.lock().unwrap();
+                while on.is_none() && t2.elapsed() < Duration::from_secs(5) {
+                    tokio::task::yield_now().await;
+                    on = *dropped_on.lock().unwrap();
+                }
+                match on {
+                    None => never += 1,
+                    Some(t) if t == me => bad.push(format!("trial {} (closure runs {} ns, drop after {} ns): destroyed on {:?}, the thread that dropped the wrapper", k, closure_ns, drop_ns, t)),
+                    Some(_) => {}
+                }
+            }
+            (bad, never, closure_first)
+        })
+        .await
+    });
+    rt.shutdown_timeout(Duration::from_secs(5));
+    let (bad, never, closure_first) = out.unwrap_or((vec!["the trial task died".into()], 0, 0));
+    let _ = counters.insert("drop_race_trials".into(), trials as u64);
+    let _ = counters.insert("closure_ended_before_drop".into(), closure_first);
+    if let Some(b) = bad.first() {
+        viol.push(Violation { prop: "C14", oracle: "destructor_on_async_thread", msg: format!("{} of {} trials: {}", bad.len(), trials, b) });
+    } else if never > 0 {
+        viol.push(Violation { prop: "C14", oracle: "destructor_never_ran", msg: format!("in {} of {} trials the value was not destroyed within 5 s after the wrapper was dropped", never, trials) });
+    }
+    let mut h = Hasher::default();
+    h.u64(seed);
+    h.u64(idx);
+    h.u64(closure_first);
+    Case {
+        violations: viol,
+        hash: h.0,
+        nontrivial: closure_first > 0 && closure_first < trials as u64,
+        events: 3 * trials as u64,
+        counters,
+        desc: Json::obj().with("engine", "c14_drop_race").with("seed", seed).with("index", idx).with("trials", trials as u64).with("closure_ended_before_drop", closure_first).with("delays_ns", delays.iter().take(8).map(|(a, b)| Json::from(format!("{}/{}", a, b))).collect::<Vec<_>>()),
+        sig_tail: String::new(),
+    }
+}
